@@ -48,7 +48,7 @@ def ENCODED():
             g.CommandStreamEmitter.cmd_wait, g.CommandStreamEmitter.cmd_do_operation, rs.RangeSet.intersects,
             rs.RangeSet.__or__, rs.RangeSet.__ior__, rs.MemoryRangeSet.intersects, rs.MemoryRangeSet.__ior__,
             rs.MemoryAccessSet.add, rs.MemoryAccessSet.conflicts, u.get_dma_memory_accesses, u.memory_range_set,
-            u.calc_blockdep, u.get_ifm_ofm_block_depth, u.get_first_job_input_volume, u.get_address_ranges, u.get_offset_block_coords, u.get_address_ranges_for_area, u.get_h_ranges, u.get_address_range, u.coords_intersect, u.intersects,
+            u.calc_blockdep, u.range_lists_overlap, u.ranges_overlap, u.get_ifm_ofm_block_depth, u.get_first_job_input_volume, u.get_address_ranges, u.get_offset_block_coords, u.get_address_ranges_for_area, u.get_h_ranges, u.get_address_range, u.coords_intersect, u.intersects,
             __import__("ethosu.vela.architecture_features", fromlist=["x"]).ArchitectureFeatures.get_ifm_block_size, u.get_op_memory_accesses]
 
 
@@ -572,7 +572,35 @@ def job_volume(V, accel, kind, wb, hb, db, stride):
     return cl
 
 
-FUNCS = {"job_volume": job_volume, "footprint_strided": footprint_strided, "area_ranges": area_ranges, "block_coords": block_coords, "programmed_addresses": programmed_addresses, "ifm_block": ifm_block, "waits": waits, "wait_step": wait_step, "rangeset": rangeset, "access": access, "dma_access": dma_access, "blockdep": blockdep, "shram_writes": shram_writes}
+def range_lists(V, na, nb):
+    """range_lists_overlap (the first filter of calc_blockdep: does the previous OFM touch this IFM at all?) on two tile lists of four entries
+    each, any of which may be None (an unused tile - a vertically wrapped rolling buffer uses tiles 0 and 2 only): true exactly when some
+    present range of one list shares a byte with some present range of the other.  Which entries are present is a symbolic choice, addresses
+    and lengths are symbolic."""
+    import ethosu.vela.register_command_stream_util as u
+    from ethosu.vela import api as a
+
+    def lst(tag, n):
+        out, present = [], []
+        for i in range(4):
+            here = bool(V.bool("%s%d_present" % (tag, i))) if i < n else False
+            if here:
+                ad, ln = V.int("%s%d_addr" % (tag, i), 0, 1 << 20), V.int("%s%d_len" % (tag, i), 1, 1 << 16)
+                out.append(a.NpuAddressRange(region=1, address=ad, length=ln))
+                present.append((ad, ln))
+            else:
+                out.append(None)
+        return out, present
+
+    la, pa = lst("a", na)
+    lb, pb = lst("b", nb)
+    with core.shims((u, {"min": core.smin, "max": core.smax})):
+        got = u.range_lists_overlap(la, lb)
+    ov = [z3.And(L(x[0]) < L(y[0]) + L(y[1]), L(y[0]) < L(x[0]) + L(x[1])) for x in pa for y in pb]
+    return [("the lists overlap exactly when two present ranges share a byte", B(got) == (z3.Or(*ov) if ov else z3.BoolVal(False)))]
+
+
+FUNCS = {"range_lists": range_lists, "job_volume": job_volume, "footprint_strided": footprint_strided, "area_ranges": area_ranges, "block_coords": block_coords, "programmed_addresses": programmed_addresses, "ifm_block": ifm_block, "waits": waits, "wait_step": wait_step, "rangeset": rangeset, "access": access, "dma_access": dma_access, "blockdep": blockdep, "shram_writes": shram_writes}
 
 
 def instances(tier, seed):
@@ -597,6 +625,8 @@ def instances(tier, seed):
             for stride in (1, 2):
                 out.append(dict(key="job_volume/%s/%dx%dx%d/s%d" % (kind, wb, hb, db, stride), fn="job_volume",
                                 params=dict(accel="Ethos_U55_128", kind=kind, wb=wb, hb=hb, db=db, stride=stride)))
+    for na, nb in ((4, 1), (1, 4), (3, 3)) + (((4, 4),) if tier != "quick" else ()):
+        out.append(dict(key="range_lists/%d_%d" % (na, nb), fn="range_lists", params=dict(na=na, nb=nb), weight=30))
     for fd in (0, 1):
         out.append(dict(key="footprint_strided/%s" % ("after_dense" if fd else "alone"), fn="footprint_strided", params=dict(first_dense=fd)))
     for wb in (1, 2, 3):
